@@ -356,7 +356,41 @@ func existsBefore(p *an.Prog, fn *ssa.Function, at ssa.Instruction, pred an.Pred
 
 // ------------------------------------------------------------------------------------------------
 
+// subscribersWriters: the subscriber count is modified only by addSubscribers (which every caller reaches with the
+// locking the protocol prescribes); a second writer - say a lock-free compare-and-swap "fast path" - bypasses the
+// exclusion between subscribing and an in-flight Send.
+func subscribersWriters(c *Ctx) {
+	P := c.P
+	var stray []ssa.Instruction
+	n := 0
+	for _, fn := range P.AllFuncs() {
+		for _, in := range an.AllInstrs(fn, func(in ssa.Instruction) bool {
+			cc := an.CallCommonOf(in)
+			if cc == nil || cc.IsInvoke() || len(cc.Args) == 0 {
+				return false
+			}
+			switch P.CalleeName(cc) {
+			case "(*sync/atomic.Int32).Add", "(*sync/atomic.Int32).CompareAndSwap", "(*sync/atomic.Int32).Store", "(*sync/atomic.Int32).Swap":
+				return an.FieldOfAddr(cc.Args[0]) == "ChanPubSub.subscribers"
+			}
+			return false
+		}) {
+			n++
+			if an.FuncName(an.Host(in.Parent())) != "(*ChanPubSub).addSubscribers" {
+				stray = append(stray, in)
+			}
+		}
+	}
+	var ps []string
+	for _, in := range stray {
+		ps = append(ps, P.InstrPos(in))
+	}
+	c.C.Add("WR", "(*ChanPubSub).addSubscribers", "the subscriber count is modified only by addSubscribers", n > 0 && len(stray) == 0,
+		pickS(len(stray) == 0, "every atomic write of ChanPubSub.subscribers is in addSubscribers", "ChanPubSub.subscribers is modified outside addSubscribers: that writer is not covered by the sendingMu protocol (a subscriber could join while a Send is delivering)"), ps...)
+}
+
 func pubsubC07(c *Ctx) {
+	subscribersWriters(c)
 	c.delegates("(*ChanPubSub).Subscribe", "(*ChanPubSub).Add", "recv", "int:1")
 	c.delegates("(*ChanPubSub).Unsubscribe", "(*ChanPubSub).Add", "recv", "int:-1")
 	P := c.P
@@ -641,7 +675,40 @@ func pubsubC07(c *Ctx) {
 
 // ------------------------------------------------------------------------------------------------
 
+// casterPoison: a positive Add that fails its validation has already added its delta: the damaged state stays in
+// place and every later call panics too. (A check BEFORE the add would report the overflow once and then let every
+// later call succeed on a count that no longer matches the receivers.)
+func casterPoison(c *Ctx) {
+	P := c.P
+	q := c.F("(*ChanCaster).Add")
+	if !q.ok() {
+		return
+	}
+	rl := P.CallsTo(q.fn, "(*sync.RWMutex).RLock")
+	adds := an.AllInstrs(q.fn, func(in ssa.Instruction) bool {
+		call, ok := in.(*ssa.Call)
+		return ok && P.CalleeName(&call.Call) == "(*sync/atomic.Uint64).Add"
+	})
+	if !q.need(rl, "PATH", "RLock in the positive branch") || !q.need(adds, "PATH", "state.Add") {
+		return
+	}
+	ok := true
+	var bad []ssa.Instruction
+	for _, pn := range an.AllInstrs(q.fn, an.IsPanic) {
+		if !P.PathExists(q.fn, rl[0], an.Is(pn), nil, nil) {
+			continue // rejected before the lock: the delta itself is out of range
+		}
+		if P.PathExists(q.fn, rl[0], an.Is(pn), an.In(adds), nil) {
+			ok = false
+			bad = append(bad, pn)
+		}
+	}
+	q.add("PATH", "a positive Add that is reported as invalid has left its mark on the state", ok,
+		pickS(ok, "every panic reachable from the read lock is preceded by state.Add", "a panic under the read lock can be raised before the state was modified: the violation is reported once and then forgotten"), bad...)
+}
+
 func casterC08(c *Ctx) {
+	casterPoison(c)
 	P := c.P
 	const max = 2147483647
 	if q := c.F("(*ChanCaster).Add"); q.ok() {
